@@ -213,6 +213,8 @@ class ProbeCrate:
         self.expect = {}       # id -> arbitrary expectation record (kept in Python)
         self.next_id = 0
         self.extra_items = ""
+        self.extra_deps = ""        # lines appended to [dependencies]
+        self.main_prelude = ""      # statements at the start of main()
 
     def add(self, body, expect):
         i = self.next_id
@@ -226,7 +228,7 @@ class ProbeCrate:
                  "use leptos::prelude::*;", "leptos_i18n::load_locales!();", "use i18n::*;", self.extra_items]
         for i, body in self.obs:
             parts.append("fn obs_%d() {\n%s\n}" % (i, body))
-        parts.append("fn main() {\n    std::panic::set_hook(Box::new(|_| {}));")
+        parts.append("fn main() {\n    std::panic::set_hook(Box::new(|_| {}));\n" + self.main_prelude)
         for i, _ in self.obs:
             parts.append("    guard(%d, obs_%d);" % (i, i))
         parts.append("    println!(\"{{\\\"done\\\":true}}\");\n}")
@@ -254,9 +256,9 @@ serde_json = "1"
 codee = "0.3"
 writeable = "0.5"
 icu_locid_transform = { version = "1.5", features = ["compiled_data"] }
-
+%s
 [package.metadata.leptos-i18n]%s
-""" % (self.name, REPO, ", ".join(json.dumps(f) for f in feats), meta)
+""" % (self.name, REPO, ", ".join(json.dumps(f) for f in feats), self.extra_deps, meta)
 
 
 def write_workspace(tag, crates, seed=0, surface_kw=None):
